@@ -68,6 +68,20 @@ fn gen_cuts(rng: &mut Rng, n: usize, st: Option<&mut RunStats>) -> Vec<usize> {
                 }
             }
         }
+        4 | 5 => {
+            // pieces of the sizes the typed Hasher methods take (u8 .. u128), an odd number of cuts
+            // so that the item uses those methods (see item::Chunks)
+            let mut p = 0usize;
+            while p < n {
+                p += *rng.pick(&[1usize, 2, 4, 8, 8, 16, 16]);
+                if p < n {
+                    cuts.push(p);
+                }
+            }
+            if cuts.len() % 2 == 0 {
+                cuts.push(n);
+            }
+        }
         3 => {
             // zero-length writes sprinkled in
             let k = rng.usize_below(6);
